@@ -1,3 +1,425 @@
-From Coq Require Import ZArith List Lia.
-From PV Require Import Base.U64 C15.C15_Model.
-Lemma placeholder : True. Proof. exact I. Qed.
+(* C15_Proofs.v — the three concrete splitters as instances of the generic
+   theorems of C15_ProofsGeneric.v, the refutation witnesses (F15, pre-fix F19)
+   and the non-vacuity examples. *)
+From Coq Require Import ZArith List Bool Lia.
+From PV Require Import Base.U64 C15.C15_Model C15.C15_Spec C15.C15_ProofsGeneric.
+Import ListNotations.
+Local Open Scope Z_scope.
+
+Lemma init_ext d1 d2 L offset length :
+  (forall x, d1 x = d2 x) -> init d1 L offset length = init d2 L offset length.
+Proof. intros E. unfold init. rewrite !E. reflexivity. Qed.
+
+(* =====================  range_split (fixed interval)  ===================== *)
+Lemma div_le_self x iv : 0 <= x -> 0 < iv -> 0 <= x / iv <= x.
+Proof.
+  intros Hx Hiv. split; [apply Z.div_pos; lia|].
+  apply Z.div_le_upper_bound; [lia|]. nia.
+Qed.
+
+Lemma div_fixed_spec iv x : 0 < iv -> 0 <= x -> x + iv - 1 < W64 ->
+  div_spec (fun i => i * iv) (getlen_fixed iv) x (divide_fixed iv x).
+Proof.
+  intros Hiv Hx Hg. unfold div_spec, divide_fixed, getlen_fixed. cbn [d_down d_rem d_up].
+  pose proof (Z.div_mod x iv ltac:(lia)) as DM.
+  pose proof (Z.mod_pos_bound x iv Hiv) as MB.
+  split; [lia|]. split; [exact MB|].
+  rewrite wrap_small by lia.
+  destruct (Z.eqb_spec (x mod iv) 0) as [E|E]; symmetry.
+  - apply (Z.div_unique _ _ _ (iv - 1)); lia.
+  - apply (Z.div_unique _ _ _ (x mod iv - 1)); lia.
+Qed.
+
+Lemma fixed_hyps offset length iv : fixed_guard offset length iv ->
+  split_hyps (fun i => i * iv) (getlen_fixed iv) (divide_fixed iv) 0 W64 offset length.
+Proof.
+  intros (Ho & Hl & Hiv & Hg). pose proof W64_gt1 as HW.
+  pose proof (div_le_self offset iv Ho Hiv) as D1.
+  pose proof (div_le_self (offset + length) iv ltac:(lia) Hiv) as D2.
+  constructor.
+  - lia.
+  - lia.
+  - lia.
+  - lia.
+  - intros i _. unfold getlen_fixed. lia.
+  - intros i _. unfold getlen_fixed. lia.
+  - apply div_fixed_spec; lia.
+  - apply div_fixed_spec; lia.
+  - cbn [divide_fixed d_down]. lia.
+  - cbn [divide_fixed d_down]. lia.
+  - cbn [divide_fixed d_up]. rewrite wrap_small by lia.
+    pose proof (div_le_self (offset + length + iv - 1) iv ltac:(lia) Hiv). lia.
+Qed.
+
+(* multiply() does not wrap at abegin and aend under the guard *)
+Lemma mult_fixed_exact offset length iv : fixed_guard offset length iv ->
+  let r := init (divide_fixed iv) (getlen_fixed iv) offset length in
+  mult_fixed iv (r_abegin r) = r_abegin r * iv /\ mult_fixed iv (r_aend r) = r_aend r * iv.
+Proof.
+  intros G. pose proof (fixed_hyps _ _ _ G) as H. cbv zeta.
+  destruct (aligned_enclose_generic _ _ _ _ _ _ _ H) as (E1 & E2 & E3 & _).
+  destruct G as (Ho & Hl & Hiv & Hg).
+  pose proof (init_abegin _ _ _ _ _ _ _ H) as IA. pose proof (init_aend _ _ _ _ _ _ _ H) as IE.
+  set (r := init (divide_fixed iv) (getlen_fixed iv) offset length) in *.
+  cbv beta in E1, E2, E3. unfold getlen_fixed in E1, E3.
+  assert (A0 : 0 <= r_abegin r).
+  { rewrite IA. cbn [divide_fixed d_down]. apply Z.div_pos; lia. }
+  assert (A1 : 0 <= r_aend r).
+  { rewrite IE. cbn [divide_fixed d_up]. apply Z.div_pos; [apply wrap_range|lia]. }
+  pose proof (Z.mul_nonneg_nonneg _ _ A0 (Z.lt_le_incl _ _ Hiv)).
+  pose proof (Z.mul_nonneg_nonneg _ _ A1 (Z.lt_le_incl _ _ Hiv)).
+  unfold mult_fixed. split; apply wrap_small; lia.
+Qed.
+
+Lemma parts_tile_fixed_l offset length iv : fixed_guard offset length iv -> 0 < length ->
+  parts_tile_stmt (fun i => i * iv) (getlen_fixed iv) (divide_fixed iv) offset length.
+Proof. intros G. exact (parts_tile_generic_stmt _ _ _ _ _ _ _ (fixed_hyps _ _ _ G)). Qed.
+
+Lemma classification_fixed_l offset length iv : fixed_guard offset length iv -> 0 < length ->
+  classification_stmt (getlen_fixed iv) (divide_fixed iv) offset length.
+Proof. intros G. exact (classification_generic_stmt _ _ _ _ _ _ _ (fixed_hyps _ _ _ G)). Qed.
+
+Lemma enclose_fixed_l offset length iv : fixed_guard offset length iv ->
+  enclose_stmt (mult_fixed iv) (getlen_fixed iv) (divide_fixed iv) offset length.
+Proof.
+  intros G. pose proof (enclose_generic_stmt _ _ _ _ _ _ _ (fixed_hyps _ _ _ G)) as E.
+  destruct (mult_fixed_exact _ _ _ G) as [M1 M2].
+  unfold enclose_stmt in *. cbv zeta beta in *. rewrite M1, M2. exact E.
+Qed.
+
+Lemma empty_fixed_l offset iv : fixed_guard offset 0 iv ->
+  empty_stmt (getlen_fixed iv) (divide_fixed iv) offset.
+Proof. intros G. exact (empty_generic_stmt _ _ _ _ _ _ (fixed_hyps _ _ _ G)). Qed.
+
+(* =====================  range_split_power2  ===================== *)
+Lemma ctz_pow2_nat : forall n : nat, ctz (2 ^ Z.of_nat n) = Z.of_nat n.
+Proof.
+  induction n as [|n IH]; [reflexivity|].
+  rewrite Nat2Z.inj_succ, Z.pow_succ_r by lia.
+  assert (P : 0 < 2 ^ Z.of_nat n) by (apply Z.pow_pos_nonneg; lia).
+  destruct (2 ^ Z.of_nat n) as [|p|p] eqn:E; try lia.
+  change (2 * Z.pos p) with (Z.pos p~0). cbn [ctz ctz_pos]. cbn [ctz] in IH. lia.
+Qed.
+
+Lemma ctz_pow2 k : 0 <= k -> ctz (2 ^ k) = k.
+Proof. intros Hk. rewrite <- (Z2Nat.id k Hk) at 1. rewrite ctz_pow2_nat. lia. Qed.
+
+Lemma pow2_lt_W64 k : 0 <= k < 64 -> 0 < 2 ^ k < W64.
+Proof.
+  intros Hk. split; [apply Z.pow_pos_nonneg; lia|].
+  rewrite W64_eq. apply Z.pow_lt_mono_r; lia.
+Qed.
+
+(* the shift/mask divide IS the / and % divide, at every x *)
+Lemma divide_p2_fixed k x : 0 <= k < 64 -> divide_p2 (2 ^ k) x = divide_fixed (2 ^ k) x.
+Proof.
+  intros Hk. pose proof (pow2_lt_W64 k Hk) as P.
+  unfold divide_p2, divide_fixed. rewrite ctz_pow2 by lia.
+  rewrite (wrap_small (2 ^ k - 1)) by lia.
+  rewrite !Z.shiftr_div_pow2 by lia.
+  replace (2 ^ k - 1) with (Z.ones k) by (rewrite Z.ones_equiv; lia).
+  rewrite Z.land_ones by lia.
+  rewrite Z.ones_equiv. replace (x + Z.pred (2 ^ k)) with (x + 2 ^ k - 1) by lia.
+  reflexivity.
+Qed.
+
+Lemma mult_p2_fixed k i : 0 <= k < 64 -> mult_p2 (2 ^ k) i = mult_fixed (2 ^ k) i.
+Proof.
+  intros Hk. unfold mult_p2, mult_fixed. rewrite ctz_pow2 by lia.
+  rewrite Z.shiftl_mul_pow2 by lia. reflexivity.
+Qed.
+
+Lemma init_p2_fixed iv offset length : is_pow2_64 iv ->
+  init (divide_p2 iv) (getlen_fixed iv) offset length =
+  init (divide_fixed iv) (getlen_fixed iv) offset length.
+Proof.
+  intros (k & Hk & ->). apply init_ext. intros x. apply divide_p2_fixed. exact Hk.
+Qed.
+
+Lemma run_p2_fixed fuel offset length iv : is_pow2_64 iv ->
+  run_p2 fuel offset length iv = run_fixed fuel offset length iv.
+Proof.
+  intros P. unfold run_p2, run_fixed. rewrite (init_p2_fixed _ _ _ P).
+  destruct P as (k & Hk & ->). rewrite !mult_p2_fixed by exact Hk. reflexivity.
+Qed.
+
+Lemma parts_tile_power2_l offset length iv : fixed_guard offset length iv -> is_pow2_64 iv ->
+  0 < length ->
+  parts_tile_stmt (fun i => i * iv) (getlen_fixed iv) (divide_p2 iv) offset length.
+Proof.
+  intros G P Hl. unfold parts_tile_stmt. rewrite (init_p2_fixed _ _ _ P).
+  exact (parts_tile_fixed_l _ _ _ G Hl).
+Qed.
+
+Lemma classification_power2_l offset length iv : fixed_guard offset length iv -> is_pow2_64 iv ->
+  0 < length -> classification_stmt (getlen_fixed iv) (divide_p2 iv) offset length.
+Proof.
+  intros G P Hl. unfold classification_stmt. rewrite (init_p2_fixed _ _ _ P).
+  exact (classification_fixed_l _ _ _ G Hl).
+Qed.
+
+Lemma enclose_power2_l offset length iv : fixed_guard offset length iv -> is_pow2_64 iv ->
+  enclose_stmt (mult_p2 iv) (getlen_fixed iv) (divide_p2 iv) offset length.
+Proof.
+  intros G P. pose proof (enclose_fixed_l _ _ _ G) as E.
+  unfold enclose_stmt in *. rewrite (init_p2_fixed _ _ _ P).
+  destruct P as (k & Hk & ->). rewrite !mult_p2_fixed by exact Hk. exact E.
+Qed.
+
+Lemma empty_power2_l offset iv : fixed_guard offset 0 iv -> is_pow2_64 iv ->
+  empty_stmt (getlen_fixed iv) (divide_p2 iv) offset.
+Proof.
+  intros G P. pose proof (empty_fixed_l _ _ G) as E.
+  unfold empty_stmt in *. rewrite (init_p2_fixed _ _ _ P).
+  destruct P as (k & Hk & ->). rewrite divide_p2_fixed by exact Hk. exact E.
+Qed.
+
+(* =====================  range_split_vi  ===================== *)
+Lemma kp_nth_0 a kp : kp_nth (a :: kp) 0 = a.
+Proof. reflexivity. Qed.
+
+Lemma kp_nth_S a kp i : 0 < i -> kp_nth (a :: kp) i = kp_nth kp (i - 1).
+Proof.
+  intros Hi. unfold kp_nth. replace (Z.to_nat i) with (S (Z.to_nat (i - 1))) by lia. reflexivity.
+Qed.
+
+Lemma ascending_tail a kp : ascending (a :: kp) -> ascending kp.
+Proof. destruct kp as [|b kp]; cbn [ascending]; tauto. Qed.
+
+Lemma ascending_step : forall kp, ascending kp ->
+  forall i, 0 <= i -> i + 1 < Z.of_nat (length kp) -> kp_nth kp i < kp_nth kp (i + 1).
+Proof.
+  induction kp as [|a kp IH]; intros Ha i Hi Hn; cbn [length] in Hn; [lia|].
+  destruct (Z.eq_dec i 0) as [E|E].
+  - subst i. destruct kp as [|b kp]; cbn [length] in Hn; [lia|].
+    change (kp_nth (a :: b :: kp) (0 + 1)) with b. rewrite kp_nth_0.
+    cbn [ascending] in Ha. tauto.
+  - rewrite !kp_nth_S by lia. replace (i + 1 - 1) with (i - 1 + 1) by lia.
+    apply IH; [eapply ascending_tail; eassumption|lia|lia].
+Qed.
+
+Lemma ascending_mono kp : ascending kp ->
+  forall n i, 0 <= i -> i + Z.of_nat n < Z.of_nat (length kp) ->
+  kp_nth kp i <= kp_nth kp (i + Z.of_nat n).
+Proof.
+  intros Ha. induction n as [|n IH]; intros i Hi Hn.
+  - replace (i + Z.of_nat 0) with i by lia. lia.
+  - replace (i + Z.of_nat (S n)) with (i + Z.of_nat n + 1) by lia.
+    pose proof (ascending_step kp Ha (i + Z.of_nat n)). specialize (IH i). lia.
+Qed.
+
+Lemma ascending_le kp i j : ascending kp -> 0 <= i <= j -> j < Z.of_nat (length kp) ->
+  kp_nth kp i <= kp_nth kp j.
+Proof.
+  intros Ha Hij Hj. replace j with (i + Z.of_nat (Z.to_nat (j - i))) by lia.
+  apply ascending_mono; [assumption|lia|lia].
+Qed.
+
+Lemma ascending_ge_idx kp : ascending kp -> kp_nth kp 0 = 0 ->
+  forall n, Z.of_nat n < Z.of_nat (length kp) -> Z.of_nat n <= kp_nth kp (Z.of_nat n).
+Proof.
+  intros Ha H0. induction n as [|n IH]; intros Hn.
+  - change (Z.of_nat 0) with 0. rewrite H0. lia.
+  - rewrite Nat2Z.inj_succ in *. unfold Z.succ in *.
+    pose proof (ascending_step kp Ha (Z.of_nat n)). lia.
+Qed.
+
+Lemma ub_spec : forall kp x,
+  0 <= upper_bound kp x <= Z.of_nat (length kp) /\
+  (forall j, 0 <= j < upper_bound kp x -> kp_nth kp j <= x) /\
+  (upper_bound kp x < Z.of_nat (length kp) -> x < kp_nth kp (upper_bound kp x)).
+Proof.
+  induction kp as [|a kp IH]; intros x; cbn [upper_bound length].
+  - split; [lia|]. split; intros; lia.
+  - destruct (Z.ltb_spec x a) as [Lt|Ge].
+    + split; [lia|]. split; [intros; lia|]. intros _. rewrite kp_nth_0. exact Lt.
+    + destruct (IH x) as (I1 & I2 & I3).
+      split; [lia|]. split.
+      * intros j Hj. destruct (Z.eq_dec j 0) as [E|E].
+        -- subst j. rewrite kp_nth_0. exact Ge.
+        -- rewrite kp_nth_S by lia. apply I2. lia.
+      * intros Hu. rewrite kp_nth_S by lia.
+        replace (1 + upper_bound kp x - 1) with (upper_bound kp x) by lia. apply I3. lia.
+Qed.
+
+Section VI.
+  Variable kp : list Z.
+  Hypothesis Hkp : kp_ok kp.
+  Local Notation n := (Z.of_nat (length kp)).
+
+  Lemma kp_len : 2 <= n <= W64.
+  Proof.
+    destruct Hkp as (Ha & H0 & Hl). split.
+    - destruct kp as [|a [|b l]]; cbn [length] in *.
+      + cbv in Hl. discriminate Hl.
+      + change (Z.of_nat 1 - 1) with 0 in Hl. rewrite H0 in Hl. discriminate Hl.
+      + lia.
+    - assert (Hn : 0 < n).
+      { destruct kp; cbn [length]; [cbv in Hl; discriminate Hl|lia]. }
+      pose proof (ascending_ge_idx kp Ha H0 (Z.to_nat (n - 1))) as G.
+      rewrite Z2Nat.id in G by lia. rewrite Hl in G. rewrite MAX64_eq in G. lia.
+  Qed.
+
+  Lemma kp_range i : 0 <= i < n -> 0 <= kp_nth kp i <= MAX64.
+  Proof.
+    intros Hi. destruct Hkp as (Ha & H0 & Hl). pose proof kp_len as Hn.
+    pose proof (ascending_le kp 0 i Ha ltac:(lia) ltac:(lia)).
+    pose proof (ascending_le kp i (n - 1) Ha ltac:(lia) ltac:(lia)). lia.
+  Qed.
+
+  Lemma getlen_vi_exact i : 0 <= i <= n - 2 ->
+    getlen_vi kp i = kp_nth kp (i + 1) - kp_nth kp i /\ 0 < getlen_vi kp i <= W64.
+  Proof.
+    intros Hi. destruct Hkp as (Ha & H0 & Hl). unfold getlen_vi.
+    pose proof (ascending_step kp Ha i ltac:(lia) ltac:(lia)).
+    pose proof (kp_range i ltac:(lia)). pose proof (kp_range (i + 1) ltac:(lia)).
+    rewrite MAX64_eq in *. rewrite wrap_small by lia. lia.
+  Qed.
+
+  Lemma div_vi_spec x : 0 <= x < MAX64 ->
+    div_spec (kp_nth kp) (getlen_vi kp) x (divide_vi kp x) /\
+    0 <= d_down (divide_vi kp x) <= n - 2 /\ d_up (divide_vi kp x) < W64.
+  Proof.
+    intros Hx. destruct Hkp as (Ha & H0 & Hl). pose proof kp_len as Hn.
+    destruct (ub_spec kp x) as (U1 & U2 & U3).
+    set (u := upper_bound kp x) in *.
+    assert (U4 : 1 <= u).
+    { destruct (Z.eq_dec u 0) as [E|E]; [|lia]. rewrite E in U3. rewrite H0 in U3. lia. }
+    assert (U5 : u <= n - 1).
+    { destruct (Z.eq_dec u n) as [E|E]; [|lia]. specialize (U2 (n - 1) ltac:(lia)). lia. }
+    specialize (U2 (u - 1) ltac:(lia)). specialize (U3 ltac:(lia)).
+    pose proof (kp_range (u - 1) ltac:(lia)) as R1.
+    destruct (getlen_vi_exact (u - 1) ltac:(lia)) as [GL _].
+    replace (u - 1 + 1) with u in GL by lia.
+    rewrite MAX64_eq in *.
+    unfold div_spec, divide_vi. fold u. cbn [d_down d_rem d_up].
+    rewrite wrap_small by lia. rewrite GL.
+    split; [|split; [lia|]].
+    - split; [lia|]. split; [lia|].
+      destruct (Z.ltb_spec 0 (x - kp_nth kp (u - 1))); destruct (Z.eqb_spec (x - kp_nth kp (u - 1)) 0); lia.
+    - destruct (0 <? x - kp_nth kp (u - 1)); lia.
+  Qed.
+
+  Lemma vi_hyps offset length : vi_guard offset length ->
+    split_hyps (kp_nth kp) (getlen_vi kp) (divide_vi kp) 0 (n - 2) offset length.
+  Proof.
+    intros (Ho & Hl & Hg). rewrite MAX64_eq in Hg.
+    destruct (div_vi_spec offset) as (D1 & D2 & _); [rewrite MAX64_eq; lia|].
+    destruct (div_vi_spec (offset + length)) as (E1 & E2 & E3); [rewrite MAX64_eq; lia|].
+    constructor; try assumption; try lia.
+    - intros i Hi. destruct (getlen_vi_exact i Hi) as [G _]. lia.
+    - intros i Hi. apply getlen_vi_exact. exact Hi.
+  Qed.
+
+  Lemma parts_tile_vi_s offset length : vi_guard offset length -> 0 < length ->
+    parts_tile_stmt (kp_nth kp) (getlen_vi kp) (divide_vi kp) offset length.
+  Proof. intros G. exact (parts_tile_generic_stmt _ _ _ _ _ _ _ (vi_hyps _ _ G)). Qed.
+
+  Lemma classification_vi_s offset length : vi_guard offset length -> 0 < length ->
+    classification_stmt (getlen_vi kp) (divide_vi kp) offset length.
+  Proof. intros G. exact (classification_generic_stmt _ _ _ _ _ _ _ (vi_hyps _ _ G)). Qed.
+
+  Lemma enclose_vi_s offset length : vi_guard offset length ->
+    enclose_stmt (mult_vi kp) (getlen_vi kp) (divide_vi kp) offset length.
+  Proof. intros G. exact (enclose_generic_stmt _ _ _ _ _ _ _ (vi_hyps _ _ G)). Qed.
+
+  Lemma empty_vi_s offset : vi_guard offset 0 ->
+    empty_stmt (getlen_vi kp) (divide_vi kp) offset.
+  Proof. intros G. exact (empty_generic_stmt _ _ _ _ _ _ (vi_hyps _ _ G)). Qed.
+End VI.
+
+(* =====================  refutations  ===================== *)
+(* all_parts started above aend can only finish by wrapping through 2^64 *)
+Lemma all_parts_from_runaway L r : 0 <= r_aend r -> forall fuel cur,
+  r_aend r < s_i cur -> s_i cur + Z.of_nat fuel < W64 -> all_parts_from L r fuel cur = None.
+Proof.
+  intros H0. induction fuel as [|fuel IH]; intros cur Hi Hf; cbn [all_parts_from];
+    (destruct (Z.eqb_spec (s_i cur) (r_aend r)) as [E|E]; [lia|]); [reflexivity|].
+  rewrite IH; [reflexivity| |]; cbn [s_i]; rewrite wrap_small by lia; lia.
+Qed.
+
+(* F15: beyond the guard (here offset+length+interval-1 = 2^64+3945) round_up
+   wraps: aend = 0 although abegin = 2^52-1, and all_parts() does not finish
+   within any realistic number of steps, so the parts do not tile the range. *)
+Lemma f15_refuted_l :
+  let offset := W64 - 100 in let length := 50 in let iv := 4096 in
+  let r := init (divide_fixed iv) (getlen_fixed iv) offset length in
+  in_u64 offset /\ in_u64 (offset + length) /\ 0 < length /\ ~ fixed_guard offset length iv /\
+  r_abegin r = 2 ^ 52 - 1 /\ r_aend r = 0 /\
+  (forall fuel, Z.of_nat fuel < 2 ^ 63 -> all_parts (getlen_fixed iv) r fuel = None) /\
+  ~ parts_tile_stmt (fun i => i * iv) (getlen_fixed iv) (divide_fixed iv) offset length.
+Proof.
+  cbv zeta.
+  assert (A : r_abegin (init (divide_fixed 4096) (getlen_fixed 4096) (W64 - 100) 50) = 2 ^ 52 - 1)
+    by (vm_compute; reflexivity).
+  assert (E : r_aend (init (divide_fixed 4096) (getlen_fixed 4096) (W64 - 100) 50) = 0)
+    by (vm_compute; reflexivity).
+  assert (F : s_i (r_first (init (divide_fixed 4096) (getlen_fixed 4096) (W64 - 100) 50)) = 2 ^ 52 - 1)
+    by (vm_compute; reflexivity).
+  assert (R : forall fuel, Z.of_nat fuel < 2 ^ 63 ->
+     all_parts (getlen_fixed 4096) (init (divide_fixed 4096) (getlen_fixed 4096) (W64 - 100) 50) fuel = None).
+  { intros fuel Hf. unfold all_parts. apply all_parts_from_runaway.
+    - rewrite E. lia.
+    - rewrite E, F. reflexivity.
+    - rewrite F. change (2 ^ 52 - 1) with 4503599627370495. change (2 ^ 63) with 9223372036854775808 in Hf.
+      change W64 with 18446744073709551616. lia. }
+  split; [unfold in_u64; change W64 with 18446744073709551616; lia|].
+  split; [unfold in_u64; change W64 with 18446744073709551616; lia|].
+  split; [lia|].
+  split; [unfold fixed_guard; change W64 with 18446744073709551616; lia|].
+  split; [exact A|]. split; [exact E|]. split; [exact R|].
+  unfold parts_tile_stmt. cbv zeta. intros T.
+  destruct (T 0%nat) as (l & Hl & _).
+  - rewrite A, E. reflexivity.
+  - rewrite R in Hl; [discriminate Hl|reflexivity].
+Qed.
+
+(* F19 (fixed by commit 744eaa1): with the pre-fix end() the aligned_parts()
+   loop of the empty un-aligned range (offset 1, length 0, interval 2) does not
+   finish within any fuel below 2^64-1, so empty_stmt was false for it. *)
+Lemma empty_range_prefix_refuted_l :
+  let r := init (divide_fixed 2) (getlen_fixed 2) 1 0 in
+  fixed_guard 1 0 2 /\
+  (forall fuel, Z.of_nat fuel < W64 - 1 -> aligned_parts_prefix (getlen_fixed 2) r fuel = None) /\
+  (forall fuel, aligned_parts (getlen_fixed 2) r fuel = Some []).
+Proof.
+  cbv zeta. split; [|split].
+  - unfold fixed_guard. change W64 with 18446744073709551616. lia.
+  - intros fuel Hf. unfold aligned_parts_prefix.
+    change (aligned_stop_prefix (init (divide_fixed 2) (getlen_fixed 2) 1 0)) with 0.
+    change (r_apbegin (init (divide_fixed 2) (getlen_fixed 2) 1 0)) with 1.
+    apply aligned_from_runaway; lia.
+  - assert (G : fixed_guard 1 0 2) by (unfold fixed_guard; change W64 with 18446744073709551616; lia).
+    destruct (empty_fixed_l 1 2 G) as (_ & Hal & _). exact Hal.
+Qed.
+
+(* =====================  non-vacuity examples  ===================== *)
+Lemma fixed_guard_ex : fixed_guard 5 10 4 /\ 0 < 10 /\ fixed_guard (W64 - 4096) 4095 1 /\
+                       fixed_guard 7 0 3.
+Proof. unfold fixed_guard. change W64 with 18446744073709551616. lia. Qed.
+
+Lemma pow2_guard_ex : fixed_guard 5 10 4 /\ is_pow2_64 4 /\ is_pow2_64 1 /\
+                      is_pow2_64 9223372036854775808.
+Proof.
+  split; [exact (proj1 fixed_guard_ex)|].
+  split; [exists 2; split; [lia|reflexivity]|].
+  split; [exists 0; split; [lia|reflexivity]|].
+  exists 63; split; [lia|reflexivity].
+Qed.
+
+Lemma vi_guard_ex : kp_ok [0; 3; 7; 8; 20; MAX64] /\ vi_guard 2 9 /\ 0 < 9 /\ vi_guard 5 0.
+Proof.
+  split; [|unfold vi_guard; change MAX64 with 18446744073709551615; lia].
+  unfold kp_ok. split; [|split; reflexivity].
+  cbn [ascending]. change MAX64 with 18446744073709551615. lia.
+Qed.
+
+Lemma split_hyps_ex :
+  split_hyps (fun i => i * 4) (getlen_fixed 4) (divide_fixed 4) 0 W64 5 10.
+Proof. apply fixed_hyps. exact (proj1 fixed_guard_ex). Qed.
+
+(* what the fixed-interval theorem says on a concrete input *)
+Lemma parts_tile_ex :
+  all_parts (getlen_fixed 4) (init (divide_fixed 4) (getlen_fixed 4) 5 10) 3
+  = Some [mkSub 1 1 3; mkSub 2 0 4; mkSub 3 0 3].
+Proof. vm_compute. reflexivity. Qed.
